@@ -16,6 +16,8 @@ fn dirs() -> (String, String, String) {
     let d2 = format!("{root}/d2");
     let _ = std::fs::create_dir_all(&d1);
     let _ = std::fs::create_dir_all(&d2);
+    // relative directory names are resolved against the working directory
+    let _ = std::env::set_current_dir(root);
     (d1, d2, format!("{root}/missing"))
 }
 
@@ -29,6 +31,7 @@ fn server_units() -> Vec<Vec<String>> {
         s(&["-p", "69"]), s(&["--port", "65535"]), s(&["-p", "0"]),
         s(&["-i", "127.0.0.1"]), s(&["--ip-address", "::1"]), s(&["-i", "0.0.0.0"]),
         s(&["--duplicate-packets", "0"]), s(&["--duplicate-packets", "254"]),
+        s(&["-rd", "d1"]), s(&["-sd", "d2"]), s(&["-d", "d2"]),
         s(&["-d", &dm]), s(&["-rd", &dm]), s(&["-sd", &dm]),
         s(&["-p", "65536"]), s(&["-p", "-1"]), s(&["-i", "300.1.1.1"]),
         s(&["--duplicate-packets", "255"]), s(&["--duplicate-packets", "256"]), s(&["--duplicate-packets", "x"]),
@@ -41,7 +44,7 @@ fn client_units() -> Vec<Vec<String>> {
     let (d1, d2, dm) = dirs();
     let s = |x: &[&str]| x.iter().map(|y| y.to_string()).collect::<Vec<_>>();
     vec![
-        s(&["a.txt"]), s(&["dir/b.txt"]), s(&["dir\\c.txt"]),
+        s(&["a.txt"]), s(&["dir/b.txt"]), s(&["dir\\c.txt"]), s(&["/abs/d.txt"]), s(&["\\win\\e.txt"]),
         s(&["-u"]), s(&["--upload"]), s(&["-d"]), s(&["--download"]), s(&["--keep-on-error"]),
         s(&["-b", "512"]), s(&["--blocksize", "8"]), s(&["-w", "1"]), s(&["--windowsize", "65535"]), s(&["-t", "1"]), s(&["--timeout", "255"]),
         s(&["-p", "69"]), s(&["--port", "65535"]), s(&["-i", "127.0.0.1"]), s(&["--ip-address", "::1"]),
@@ -382,13 +385,15 @@ pub fn check(tier: Tier) -> Outcome {
     }
     if tier == Tier::Thorough {
         // depth 5 (server) / 5 (client) on the directory + switch sub-alphabet
-        let sub_s: Vec<usize> = (0..12).chain([20, 21, 22]).collect();
+        let su = server_units();
+        let sub_s: Vec<usize> = (0..su.len()).filter(|i| matches!(su[*i][0].as_str(), "-s" | "--single-port" | "-r" | "--read-only" | "--overwrite" | "--keep-on-error" | "-d" | "--directory" | "-rd" | "--receive-directory" | "-sd" | "--send-directory") && su[*i].len() >= 1 && !(su[*i].len() == 1 && su[*i][0].starts_with("-d")) ).filter(|i| su[*i].len() == 2 || !matches!(su[*i][0].as_str(), "-d" | "-rd" | "-sd")).collect();
         for &i in &sub_s {
             for &j in &sub_s {
                 cells.push(json!({"client": false, "prefix": [i, j], "more": 3, "allowed": sub_s}));
             }
         }
-        let sub_c: Vec<usize> = (0..8).chain([18, 19, 20]).collect();
+        let cu = client_units();
+        let sub_c: Vec<usize> = (0..cu.len()).filter(|i| cu[*i].len() == 1 && !cu[*i][0].starts_with("-i") && !matches!(cu[*i][0].as_str(), "-p" | "-b" | "-w" | "-t" | "-rd") || (cu[*i].len() == 2 && matches!(cu[*i][0].as_str(), "-rd" | "--receive-directory"))).collect();
         for &i in &sub_c {
             for &j in &sub_c {
                 cells.push(json!({"client": true, "prefix": [i, j], "more": 3, "allowed": sub_c}));
